@@ -599,3 +599,39 @@ func (g *Gen) Valid(depth int) geom.Geometry {
 	}
 	return geom.NewPoint(geom.Coordinates{Type: g.CT, XY: geom.XY{X: g.Lat.X(0), Y: g.Lat.Y(0)}}).AsGeometry()
 }
+
+// TouchingHolesPolygon builds a rectangle with 2-4 unit-square holes placed so
+// that they touch each other and/or the shell at lattice corners (a cycle of
+// touches disconnects the interior): not valid, by construction or by chance.
+func (g *Gen) TouchingHolesPolygon() geom.Geometry {
+	s := g.S
+	w, h := 4+s.Intn(3, "th/w"), 4+s.Intn(3, "th/h")
+	rings := [][][2]int{rectRing(0, 0, w, h)}
+	n := 2 + s.Intn(3, "th/n")
+	x, y := 1+s.Intn(2, "th/x"), 1+s.Intn(2, "th/y")
+	for i := 0; i < n; i++ {
+		rings = append(rings, rectRing(x, y, x+1, y+1))
+		// next hole diagonally adjacent (corner touch), or edge-adjacent to the shell
+		switch s.Intn(3, "th/step") {
+		case 0:
+			x, y = x+1, y+1
+		case 1:
+			x, y = x+1, y-1
+		default:
+			x, y = x-1, y+1
+		}
+		if x < 0 {
+			x = 0
+		}
+		if y < 0 {
+			y = 0
+		}
+		if x >= w {
+			x = w - 1
+		}
+		if y >= h {
+			y = h - 1
+		}
+	}
+	return g.polyFrom(rings).AsGeometry()
+}
